@@ -42,8 +42,11 @@ var strategies = []string{"/8:6c6f63616c686f7374/8:6e6664/8:7374726174656779/8:6
 // prefixes below /f are managed by direct FIB commands only (never by the RIB)
 var directPrefixes = []string{"/8:66", "/8:66/8:61", "/8:66/8:61/8:62", "/8:66/8:62"}
 
+// directHeavy histories concentrate on the prefixes managed by direct FIB commands
+var directHeavy bool
+
 func genWrite(r *common.Rand, g *common.Gen, u []enc.Name, faces []uint64) string {
-	if r.Chance(1, 4) {
+	if r.Chance(1, 4) || (directHeavy && r.Chance(3, 4)) {
 		n := common.Pick(r, directPrefixes)
 		if r.Chance(3, 5) {
 			g.Stat("op-fib-insert")
@@ -80,7 +83,7 @@ func genWrite(r *common.Rand, g *common.Gen, u []enc.Name, faces []uint64) strin
 func genRead(r *common.Rand, g *common.Gen, u []enc.Name) string {
 	// lookups of names at and below the universe prefixes
 	n := common.Pick(r, u)
-	if r.Chance(1, 4) {
+	if r.Chance(1, 4) || (directHeavy && r.Chance(3, 4)) {
 		n = common.ParseNameText(common.Pick(r, directPrefixes))
 	}
 	if r.Chance(1, 2) {
@@ -116,6 +119,16 @@ func gen(g *common.Gen) {
 		g.Op("new %s %s", kind, strategies[0])
 		u := genUniverse(r)
 		faces := []uint64{5, 6, 7, 8}[:r.Range(2, 4)]
+		directHeavy = r.Chance(1, 3)
+		if directHeavy {
+			g.Stat("histories-direct-fib-heavy")
+			// several next hops per directly managed prefix, so that removals shift elements in place
+			for _, d := range directPrefixes[:r.Range(1, 2)] {
+				for f := uint64(5); f < uint64(r.Range(8, 12)); f++ {
+					g.Op("fins,%s,%d,%d", d, f, common.Pick(r, []uint64{0, 1, 5, 10, 77}))
+				}
+			}
+		}
 		for k := r.Range(0, 6); k > 0; k-- {
 			g.Op("%s", genWrite(r, g, u, faces))
 		}
